@@ -38,6 +38,13 @@
 (*      (w_c n_c/k_c) / sum_{j in row} (w_j n_j/k_j)          (RowProb)    *)
 (* and the logit on the full choice set gives w_c / sum_all w (FullProb).  *)
 (* FullEquiv: when every stratum is sampled completely both coincide.      *)
+(*                                                                         *)
+(* Nests.  A nested / cross-nested model is given by the STRUCTURE of its  *)
+(* nests (members, scale mu, allocation parameters alpha).  A nest may     *)
+(* also carry a label (a name chosen by the user, or a default one): the   *)
+(* label is NOT part of the model -- NestedProb and CnlProb below take the  *)
+(* structures only, and the labelled versions go through Structure         *)
+(* (NamesNotInModel).  See "Names of nests" for the labellings replayed.   *)
 (***************************************************************************)
 EXTENDS Integers, Sequences, FiniteSets, TLC, Json, Term
 
@@ -330,6 +337,49 @@ CnlSpec(in) ==
                   LAMBDA nest : \E id \in DOMAIN in.alts : CnlMember(nest, id))
 
 ---------------------------------------------------------------------------
+(* Names of nests.                                                         *)
+(* A labelling gives every nest a name or none (NoName); the library       *)
+(* documents that a nest without a name gets the default "nest_<rank>".    *)
+(* Names identify nothing in the mathematics: two nests with the same      *)
+(* name remain two nests, a nest keeps its members and parameters whatever *)
+(* it is called.  The labellings tried on every nest structure:            *)
+(*   default        nobody is named                                        *)
+(*   same           every nest has the same user name                      *)
+(*   default-clash  the first nest is called like the default name of the  *)
+(*                  second ("nest_2"), the others are unnamed              *)
+(*   distinct       distinct user names                                    *)
+(*   default-clash-reverse  the last nest is called "nest_1", the default  *)
+(*                  name of the first; the others are unnamed              *)
+(* The likelihood under complete sampling is the SAME exact value for all  *)
+(* of them.  The only latitude: where the user himself gave two nests the  *)
+(* same name (UserClash) a library that uses names as identifiers may      *)
+(* refuse the labelling with its own error type -- never silently compute  *)
+(* another model; a clash between a user name and a default name, or no    *)
+(* clash at all, is no ground for a refusal (the defaults are the          *)
+(* library's own choice).                                                  *)
+(***************************************************************************)
+NoName == ""
+DefaultName(i) == "nest_" \o ToString(i)
+NamingKinds == <<"default", "same", "default-clash", "distinct", "default-clash-reverse">>
+Naming(kind, m) ==
+    [i \in 1..m |->
+        CASE kind = "default" -> NoName
+          [] kind = "same" -> "n"
+          [] kind = "default-clash" -> IF i = 1 THEN DefaultName(2) ELSE NoName
+          [] kind = "distinct" -> "zone_" \o ToString(i)
+          [] kind = "default-clash-reverse" -> IF i = m THEN DefaultName(1) ELSE NoName]
+UserClash(nm) == \E i, j \in 1..Len(nm) : i # j /\ nm[i] # NoName /\ nm[i] = nm[j]
+DefaultClash(nm) == \E i, j \in 1..Len(nm) : i # j /\ nm[i] = NoName /\ nm[j] = DefaultName(i)
+Label(nests, nm) == [m \in 1..Len(nests) |-> [nest |-> nests[m], name |-> nm[m]]]
+Structure(lnests) == [m \in 1..Len(lnests) |-> lnests[m].nest]
+\* the models of labelled nests: the labels are dropped before anything is computed
+NestedProbL(in, fam, ind, lnests) == NestedProb(in, fam, ind, Structure(lnests))
+CnlProbL(in, fam, ind, lnests) == CnlProb(in, fam, ind, Structure(lnests))
+NamingsJson(m) == [k \in 1..Len(NamingKinds) |->
+                     LET nm == Naming(NamingKinds[k], m) IN
+                     [kind |-> NamingKinds[k], names |-> nm, may_refuse |-> UserClash(nm), default_clash |-> DefaultClash(nm)]]
+
+---------------------------------------------------------------------------
 (* Properties of the model, checked by TLC *)
 TypeOK == /\ ValidInst(inst)
           /\ cur \in 1..Len(inds)
@@ -373,6 +423,28 @@ FullEquiv == pc = "rowdone" =>
        /\ QLess(Zero, p) /\ QLeq(p, One)
        /\ IsComplete(inst) => p = FullProb(inst, fam, Cur)
 
+\* the names of the nests are not part of the model: labelling a nest structure and reading the structure back gives
+\* the structure, whatever the labelling (clashing names included: nothing is merged, nothing is lost), so the labelled
+\* models have the value of the unlabelled ones (written out for the first individual)
+NamesNotInModel == (Mode = "full" /\ pc = "done") =>
+    LET specs == NestSpecs(inst)
+        cn == CnlSpec(inst) IN
+    /\ \A k \in 1..Len(NamingKinds) :
+        /\ \A q \in 1..Len(specs) :
+              LET ln == Label(specs[q], Naming(NamingKinds[k], Len(specs[q]))) IN
+              /\ Structure(ln) = specs[q]
+              /\ \A fam \in Fams : NestedProbL(inst, fam, inds[1], ln) = NestedProb(inst, fam, inds[1], specs[q])
+        /\ LET ln == Label(cn, Naming(NamingKinds[k], Len(cn))) IN
+           /\ Structure(ln) = cn
+           /\ \A fam \in Fams : CnlProbL(inst, fam, inds[1], ln) = CnlProb(inst, fam, inds[1], cn)
+    \* which labellings clash, for 1..4 nests (what the emitted flags say)
+    /\ \A m \in 1..4 :
+        /\ ~UserClash(Naming("default", m)) /\ ~DefaultClash(Naming("default", m))
+        /\ ~UserClash(Naming("distinct", m)) /\ ~DefaultClash(Naming("distinct", m))
+        /\ m >= 2 => /\ UserClash(Naming("same", m))
+                     /\ DefaultClash(Naming("default-clash", m)) /\ ~UserClash(Naming("default-clash", m))
+                     /\ DefaultClash(Naming("default-clash-reverse", m)) /\ ~UserClash(Naming("default-clash-reverse", m))
+
 \* acceptance = membership: a candidate row (any sequence of entries carrying some stratum's
 \* correction) passes the main clauses iff SampleStratum/Assemble can produce it.  Evaluated on the
 \* initial states of mode "lemma" (tiny tables).
@@ -403,6 +475,7 @@ Emitted ==
      nested |-> LET specs == NestSpecs(inst) IN
                 [q \in 1..Len(specs) |->
                     [nests |-> NestJson(specs[q]),
+                     namings |-> NamingsJson(Len(specs[q])),
                      fams  |-> [fam \in Fams |->
                                   [p  |-> [i \in 1..Len(inds) |-> NestedProb(inst, fam, inds[i], specs[q])],
                                    ll |-> LogLik([i \in 1..Len(inds) |-> NestedProb(inst, fam, inds[i], specs[q])])]]]],
@@ -410,6 +483,7 @@ Emitted ==
                 [nests |-> [m \in 1..Len(nests) |->
                               [mu |-> nests[m].mu,
                                alpha |-> [i \in 1..Len(ids) |-> <<ids[i], nests[m].alpha[ids[i]].n, nests[m].alpha[ids[i]].d>>]]],
+                 namings |-> NamingsJson(Len(nests)),
                  fams  |-> [fam \in Fams |->
                               [p  |-> [i \in 1..Len(inds) |-> CnlProb(inst, fam, inds[i], nests)],
                                ll |-> LogLik([i \in 1..Len(inds) |-> CnlProb(inst, fam, inds[i], nests)])]]]]
